@@ -20,7 +20,7 @@ pub fn check() -> Check {
         spec: CheckSpec {
             id: "C04",
             level: "exploration",
-            rule: "one case = one episode: 1-4 writer threads, 2-10 reader threads, optionally a deleter and a thread running merge passes in a loop, on 2-6 keys of one store (reader pool 1/2/4, reader cache 0/1/256, max_file_size 0..64 KiB, values 16 B..64 KiB on both sides of the 8 KiB buffer, every written value unique and self-describing so torn or foreign bytes are recognised), in 20-120 segments of 4-10 operations per thread separated by barriers; the I/O shim injects seeded delays after data-file writes, before reader open/mmap and around unlink. Recorded per operation at the Handle boundary: thread, op, key, value id, invocation stamp, result, response stamp (one global atomic counter). Oracle: (a) per key and segment a Wing-Gong linearizability search over a set/get/del register, started from the value read at the previous barrier, with the barrier's quiescent reads as part of the history; any Err is a violation (no fault is injected); (b) no panic (each op under catch_unwind); (c) at every barrier the reader pool holds all its readers again (verif_dump); (d) no segment takes longer than 30 s (operations take microseconds). One evaluation = one checked (key, segment) history. Non-trivial/distinct = distinct overlap patterns (hash of the order of invocation/response events and op kinds) among histories in which a get overlapped a set or delete of the same key.",
+            rule: "one case = one episode: 1-4 writer threads, 2-10 reader threads, optionally a deleter and a thread running merge passes in a loop, on 2-6 keys of one store (reader pool 1/2/4, reader cache 0/1/256, max_file_size 0..64 KiB, values 16 B..64 KiB on both sides of the 8 KiB buffer, every written value unique and self-describing so torn or foreign bytes are recognised), in 20-120 segments of 4-10 operations per thread separated by barriers; the I/O shim injects seeded delays after data-file writes, before reader open/mmap and around unlink. Recorded per operation at the Handle boundary: thread, op, key, value id, invocation stamp, result, response stamp (one global atomic counter). Oracle: (a) per key and segment a Wing-Gong linearizability search over a set/get/del register, started from the value read at the previous barrier, with the barrier's quiescent reads as part of the history; any Err is a violation (no fault is injected; except in a quarter of the episodes, where now and then one open-for-reading or mmap of a data file fails and a get or merge pass may report that); (b) no panic (each op under catch_unwind); (c) at every barrier the reader pool holds all its readers again (verif_dump); (d) no segment takes longer than 30 s (operations take microseconds). One evaluation = one checked (key, segment) history. Non-trivial/distinct = distinct overlap patterns (hash of the order of invocation/response events and op kinds) among histories in which a get overlapped a set or delete of the same key.",
             assumptions: vec![
                 "stamps are taken before the call and after the return, which can only widen intervals: the checker may accept more than real time allows, never reject a correct history",
                 "interleavings are sampled; delays raise the odds of the windows named in the property, they do not enumerate schedules",
@@ -163,6 +163,10 @@ struct Shared {
     ops_done: AtomicU64,
     merges_done: AtomicU64,
     size_classes: Vec<u8>,
+    /// read-side failures (open for reading / mmap of a data file) are injected in this episode: a
+    /// get or a merge pass may then return an error, which is not a result
+    faulty: bool,
+    failed_under_fault: AtomicU64,
 }
 
 fn problem(sh: &Shared, sig: &str, desc: String) {
@@ -231,6 +235,9 @@ fn one_op(sh: &Shared, tid: u32, role: Role, r: &mut Rng) {
                     Some(id) => sh.hist[ki].lock().unwrap().push(Op { thread: tid, kind: Kind::Get(Some(id)), call, ret }),
                     None => problem(sh, "torn-or-foreign-value", format!("get({}) returned {} bytes that are not any value written in full: {}", show(key), v.len(), show(&v))),
                 },
+                Ok(Err(_)) if sh.faulty => {
+                    sh.failed_under_fault.fetch_add(1, Ordering::Relaxed);
+                }
                 Ok(Err(e)) => problem(sh, "operation-error", format!("get({}) returned {:?} although no fault is injected", show(key), e)),
                 Err(_) => {
                     let m = crate::last_panic();
@@ -260,6 +267,9 @@ fn one_op(sh: &Shared, tid: u32, role: Role, r: &mut Rng) {
             match res {
                 Ok(Ok(())) => {
                     sh.merges_done.fetch_add(1, Ordering::Relaxed);
+                }
+                Ok(Err(_)) if sh.faulty => {
+                    sh.failed_under_fault.fetch_add(1, Ordering::Relaxed);
                 }
                 Ok(Err(e)) => problem(sh, "operation-error", format!("merge returned {:?} although no fault is injected", e)),
                 Err(_) => {
@@ -337,6 +347,9 @@ fn episode(ctx: &Ctx, case: u64, out: &mut Out, tsan: bool) -> EpisodeResult {
             return EpisodeResult { segments: 0, ops: 0, merges: 0, histories: 0, hang: false };
         }
     };
+    // a quarter of the episodes (not under ThreadSanitizer, where the shim is not linked): now and then
+    // one open-for-reading or mmap of a data file fails (EIO / EMFILE) under a get or a merge pass
+    let faulty = case % 4 == 2 && shim::present();
     let sh = Arc::new(Shared {
         handle: st.h.clone(),
         keys: keys.clone(),
@@ -349,6 +362,8 @@ fn episode(ctx: &Ctx, case: u64, out: &mut Out, tsan: bool) -> EpisodeResult {
         ops_done: AtomicU64::new(0),
         merges_done: AtomicU64::new(0),
         size_classes,
+        faulty,
+        failed_under_fault: AtomicU64::new(0),
     });
     let mut roles: Vec<Role> = Vec::new();
     roles.extend(std::iter::repeat(Role::Writer).take(writers));
@@ -394,6 +409,10 @@ fn episode(ctx: &Ctx, case: u64, out: &mut Out, tsan: bool) -> EpisodeResult {
     let mut sample_hist: Option<serde_json::Value> = None;
     'segments: for seg in 0..segments {
         ctx.breadcrumb(case, &format!("segment {}", seg));
+        if faulty && r.chance(1, 3) {
+            shim::fail(shim::C_OPENRD | shim::C_MMAP, shim::F_DATA, r.below(3) as i64, if r.chance(1, 2) { libc::EIO } else { libc::EMFILE });
+            out.count("read_side_failures_armed", 1);
+        }
         sh.done.store(0, Ordering::Release);
         sh.go.store(seg + 1, Ordering::Release);
         let t0 = Instant::now();
@@ -429,9 +448,18 @@ fn episode(ctx: &Ctx, case: u64, out: &mut Out, tsan: bool) -> EpisodeResult {
                 quiescent.push(None);
                 continue;
             }
-            let call = stamp();
-            let g = std::panic::catch_unwind(std::panic::AssertUnwindSafe(|| hget(&sh.handle, k)));
-            let ret = stamp();
+            let mut call = stamp();
+            let mut g = std::panic::catch_unwind(std::panic::AssertUnwindSafe(|| hget(&sh.handle, k)));
+            let mut ret = stamp();
+            let mut tries = 0;
+            while faulty && tries < 5 && matches!(g, Ok(Err(_))) {
+                // the harness's own read ran into the injected failure
+                tries += 1;
+                sh.failed_under_fault.fetch_add(1, Ordering::Relaxed);
+                call = stamp();
+                g = std::panic::catch_unwind(std::panic::AssertUnwindSafe(|| hget(&sh.handle, k)));
+                ret = stamp();
+            }
             match g {
                 Ok(Ok(v)) => {
                     let idv = match &v {
@@ -517,6 +545,11 @@ fn episode(ctx: &Ctx, case: u64, out: &mut Out, tsan: bool) -> EpisodeResult {
     }
     res.ops = sh.ops_done.load(Ordering::Relaxed);
     res.merges = sh.merges_done.load(Ordering::Relaxed);
+    shim::fail_off();
+    if faulty {
+        out.count("episodes_with_read_side_failures", 1);
+        out.count("gets_and_merges_failed_by_an_injected_failure", sh.failed_under_fault.load(Ordering::Relaxed));
+    }
     shim::watch(None);
     shim::delay_clear();
     shim::short_writes(0, 0);
